@@ -138,7 +138,7 @@ func (g *Graph) Inhabited() (types map[string]bool, root bool) {
 	for changed := true; changed; {
 		changed = false
 		for name, t := range g.Types {
-			if !types[name] && node(t, false) {
+			if !types[name] && node(t, g.OptTypes[name]) {
 				types[name] = true
 				changed = true
 			}
